@@ -142,7 +142,8 @@ def sess_c05(seed, profile='main', npairs=40, big=6):
     r, lines, types = make_doc(seed, profile, max_rows=14)
     evs, doc, text = session.record_import(lines)
     if doc is not None:
-        evs.append(session.record_call(doc, {'op': 'dumps', 'args': session.dumps_args(enc='ekern'), 'exact': True}))
+        # the unfiltered export is the BASE every filtered export is judged relative to
+        evs.append(session.record_call(doc, {'op': 'dumps', 'args': session.dumps_args(enc='ekern'), 'exact': True, 'role': 'base'}))
         base = len(evs)
         evs.append(session.record_call(doc, {'op': 'same_as', '_what': 'dumps', 'ref': base,
                                              'args': session.dumps_args(inc=CATS, exc=[], enc='ekern'), '_form': 1}))   # include=all, exclude=nothing
@@ -150,14 +151,14 @@ def sess_c05(seed, profile='main', npairs=40, big=6):
         for c in CATS:
             for inc, exc in ((([c]), None), (None, [c])):
                 k += 1
-                evs.append(session.record_call(doc, {'op': 'dumps', 'args': session.dumps_args(inc=inc, exc=exc, enc='ekern'), '_form': k}))
+                evs.append(session.record_call(doc, {'op': 'dumps', 'args': session.dumps_args(inc=inc, exc=exc, enc='ekern'), '_form': k, 'base': base}))
         for _ in range(npairs):
             a, b = r.choice(CATS), r.choice(CATS)
-            evs.append(session.record_call(doc, {'op': 'dumps', 'args': session.dumps_args(inc=[a], exc=[b], enc=r.choice(['ekern', 'ekern', 'kern'])), '_form': r.randrange(9)}))
+            evs.append(session.record_call(doc, {'op': 'dumps', 'args': session.dumps_args(inc=[a], exc=[b], enc='ekern'), '_form': r.randrange(9), 'base': base}))
         for _ in range(big):
             inc = r.sample(CATS, r.randint(0, 6)) if r.random() < 0.8 else None
             exc = r.sample(CATS, r.randint(0, 4))
-            evs.append(session.record_call(doc, {'op': 'dumps', 'args': session.dumps_args(inc=inc, exc=exc, enc='ekern'), '_form': r.randrange(9)}))
+            evs.append(session.record_call(doc, {'op': 'dumps', 'args': session.dumps_args(inc=inc, exc=exc, enc='ekern'), '_form': r.randrange(9), 'base': base}))
     return finish_session(lines, evs, text, seed, features(lines))
 
 
@@ -166,11 +167,13 @@ def sess_c05_allpairs(seed, profile='main'):
     r, lines, types = make_doc(seed, profile, max_rows=8, max_spines=3)
     evs, doc, text = session.record_import(lines)
     if doc is not None:
+        evs.append(session.record_call(doc, {'op': 'dumps', 'args': session.dumps_args(enc='ekern'), 'exact': True, 'role': 'base'}))
+        base = len(evs)
         k = 0
         for a in CATS:
             for b in CATS:
                 k += 1
-                evs.append(session.record_call(doc, {'op': 'dumps', 'args': session.dumps_args(inc=[a], exc=[b], enc='ekern'), '_form': k % 9}))
+                evs.append(session.record_call(doc, {'op': 'dumps', 'args': session.dumps_args(inc=[a], exc=[b], enc='ekern'), '_form': k % 9, 'base': base}))
     return finish_session(lines, evs, text, seed, features(lines) | {'all-pairs'})
 
 
@@ -183,21 +186,25 @@ def sess_c06(seed, profile='main'):
     evs, doc, text = session.record_import(lines)
     if doc is not None:
         n = len(types)
+        present0 = sorted(set(types))
+        # the full export (every spine, also unknown types) is the BASE every projection is judged relative to
+        evs.append(session.record_call(doc, {'op': 'dumps', 'args': session.dumps_args(types=present0), 'exact': True, 'role': 'base'}))
+        base = len(evs)
         for ids in subsets(list(range(n))):
             a = session.dumps_args(ids=ids if (ids != list(range(n)) or r.random() < 0.5) else None)
-            evs.append(session.record_call(doc, {'op': 'dumps', 'args': a, 'exact': True}))
-        evs.append(session.record_call(doc, {'op': 'dumps', 'args': session.dumps_args(ids=[n + 1, 0]), 'exact': True}))   # an id that does not exist
+            evs.append(session.record_call(doc, {'op': 'dumps', 'args': a, 'exact': True, 'base': base}))
+        evs.append(session.record_call(doc, {'op': 'dumps', 'args': session.dumps_args(ids=[n + 1, 0]), 'exact': True, 'base': base}))   # an id that does not exist
         present = sorted(set(types))
         pool = subsets(present + ['**mens', '**other'])
         for ts in (pool if len(pool) <= 16 else r.sample(pool, 16)):
-            evs.append(session.record_call(doc, {'op': 'dumps', 'args': session.dumps_args(types=ts), 'exact': True}))
+            evs.append(session.record_call(doc, {'op': 'dumps', 'args': session.dumps_args(types=ts), 'exact': True, 'base': base}))
             evs.append(session.record_call(doc, {'op': 'spine_types', 'args': {'alltypes': False, 'types': [cps(t) for t in ts]}}))
         evs.append(session.record_call(doc, {'op': 'spine_types', 'args': {'alltypes': True, 'types': []}}))
         evs.append(session.record_call(doc, {'op': 'spine_types', 'args': {'alltypes': True, 'types': []}, '_form': 1}))
         for _ in range(6):                               # ids x types intersect
             ids = r.sample(range(n), r.randint(0, n))
             ts = r.sample(present, r.randint(0, len(present)))
-            evs.append(session.record_call(doc, {'op': 'dumps', 'args': session.dumps_args(ids=ids, types=ts, enc=r.choice(['kern', 'ekern'])), 'exact': True}))
+            evs.append(session.record_call(doc, {'op': 'dumps', 'args': session.dumps_args(ids=ids, types=ts), 'exact': True, 'base': base}))
     return finish_session(lines, evs, text, seed, features(lines))
 
 
@@ -216,13 +223,16 @@ def sess_c13(seed, profile='main', ntriples=36):
     r, lines, types = make_doc(seed, profile, max_rows=14)
     evs, doc, text = session.record_import(lines)
     if doc is not None:
-        evs.append(session.record_call(doc, {'op': 'dumps', 'args': session.dumps_args(), 'exact': True}))
+        # the default EXTENDED export of every spine is the BASE the composed transformations are applied to
+        evs.append(session.record_call(doc, {'op': 'dumps', 'args': session.dumps_args(types=sorted(set(types)), enc='ekern'), 'exact': True, 'role': 'base'}))
+        xbase = len(evs)
+        evs.append(session.record_call(doc, {'op': 'dumps', 'args': session.dumps_args(), 'exact': True, 'base': xbase}))
         base = len(evs)
         # explicit defaults are the same as omitted options
         evs.append(session.record_call(doc, {'op': 'same_as', '_what': 'dumps', 'ref': base, 'args': session.dumps_args(), '_explicit': True}))
         for _ in range(ntriples):
             o = random_options(r, types)
-            evs.append(session.record_call(doc, {'op': 'dumps', 'args': session.dumps_args(**o), '_form': r.randrange(9)}))
+            evs.append(session.record_call(doc, {'op': 'dumps', 'args': session.dumps_args(**o), '_form': r.randrange(9), 'base': xbase}))
             if r.random() < 0.25:
                 k = len(evs)
                 evs.append(session.record_call(doc, {'op': 'same_as', '_what': 'dumps', 'ref': k, 'args': session.dumps_args(**o),
@@ -323,16 +333,18 @@ def sess_c07(seed, profile='kern_only', mixed=False, sigs=False, hidden=False):
         ts = ['**kern'] if mixed else None
         evs.append(session.record_call(doc, {'op': 'mcount', 'args': {}}))
         evs.append(session.record_call(doc, {'op': 'iter', 'args': {}}))
-        evs.append(session.record_call(doc, {'op': 'dumps', 'args': session.dumps_args(types=ts), 'exact': True}))
+        # the full export is the BASE: a range must yield ITS data lines, unmodified
+        evs.append(session.record_call(doc, {'op': 'dumps', 'args': session.dumps_args(types=ts), 'exact': True, 'role': 'base'}))
+        base = len(evs)
         M = len(doc.measure_start_tree_stages)
         pairs = [(a, b) for a in range(1, M + 1) for b in range(a, M + 1)]
         if len(pairs) > 60:
             pairs = r.sample(pairs, 60)
         for a, b in pairs:
-            evs.append(session.record_call(doc, {'op': 'dumps', 'args': session.dumps_args(types=ts, frm=a, to=b), 'strict': True}))
+            evs.append(session.record_call(doc, {'op': 'dumps', 'args': session.dumps_args(types=ts, frm=a, to=b), 'strict': True, 'base': base}))
         for a in range(1, min(M, 6) + 1):                 # open-ended ranges
-            evs.append(session.record_call(doc, {'op': 'dumps', 'args': session.dumps_args(types=ts, frm=a), 'strict': True}))
-            evs.append(session.record_call(doc, {'op': 'dumps', 'args': session.dumps_args(types=ts, to=a), 'strict': True}))
+            evs.append(session.record_call(doc, {'op': 'dumps', 'args': session.dumps_args(types=ts, frm=a), 'strict': True, 'base': base}))
+            evs.append(session.record_call(doc, {'op': 'dumps', 'args': session.dumps_args(types=ts, to=a), 'strict': True, 'base': base}))
         for a, b in ((-1, None), (-2, M), (None, M + 1), (1, M + 1), (2, 1), (M, M - 1), (M + 1, M + 2), (0, M + 3)):
             if (a is None or b is None or True):
                 evs.append(session.record_call(doc, {'op': 'dumps', 'args': session.dumps_args(types=ts, frm=a, to=b), 'strict': True}))
@@ -362,15 +374,21 @@ def sess_c10(seed, profile='main', plain_acc=True):
     evs, doc, text = session.record_import(lines)
     if doc is not None:
         idx = {}
-        for enc in ('kern', 'akern', 'aekern', 'ekern'):
-            evs.append(session.record_call(doc, {'op': 'dumps', 'args': session.dumps_args(enc=enc), 'exact': True}))
+        # the kern / ekern exports are the BASE: the agnostic export must differ from them only in the pitch letters
+        for enc in ('kern', 'ekern', 'akern', 'aekern'):
+            c = {'op': 'dumps', 'args': session.dumps_args(enc=enc), 'exact': True}
+            if enc in ('kern', 'ekern'):
+                c['role'] = 'base'
+            else:
+                c['base'] = idx['kern' if enc == 'akern' else 'ekern']
+            evs.append(session.record_call(doc, c))
             idx[enc] = len(evs)
         evs.append(session.relation(doc, 'agn_vs_kern', idx['akern'], idx['kern'], 'akern', 'kern'))
         evs.append(session.relation(doc, 'plain_vs_ext', idx['akern'], idx['aekern'], 'akern', 'aekern'))
         for _ in range(3):
             o = random_options(r, types)
             o['enc'] = r.choice(['akern', 'aekern'])
-            evs.append(session.record_call(doc, {'op': 'dumps', 'args': session.dumps_args(**o), '_form': r.randrange(9)}))
+            evs.append(session.record_call(doc, {'op': 'dumps', 'args': session.dumps_args(**o), '_form': r.randrange(9), 'base': idx['ekern']}))
     tags = features(lines)
     nclefs = len({tuple(c['t']) for c in gen.all_cells(lines) if c['k'] == 'clef'})
     if nclefs >= 2:
@@ -407,7 +425,7 @@ def doc_main(pid, *, assumptions, rule, mc, populations, nontrivial=None, sympto
             sess += part
             run.note('population_' + label, n)
         docs.selftest_session(next((s for s in sess if len(s['log']) > 8), sess[0]))
-    docs.validate_sessions(run, sess, symptom_of=symptom_of)
+    docs.validate_sessions(run, sess, symptom_of=symptom_of, relevant=docs.relevant_for(run.pid))
     run.evaluations = sum(sum(1 for e in s['log'] if e['ev'] == 'call') for s in sess) + len(sess)
     for s in sess:
         if nontrivial is None or nontrivial(s):
